@@ -68,7 +68,7 @@ Main == /\ ~done
         /\ hist' = TextOf(desc)
         /\ Become(MainOp(desc))
         /\ done' = TRUE
-        /\ UNCHANGED desc
+        /\ UNCHANGED << desc, blocks >>
 
 MNext == \/ \E s \in SlotIds, c \in DescClasses : Describe(s, c)
          \/ Main
